@@ -108,6 +108,18 @@ def check(ctx):
             m = [] if o == '-' else [int(t) for t in o.split(',')]
             if m != x:
                 C.issue('span-mismatch', 'correspondence', rp, model=[common.bits2f(b) for b in m], real=[common.bits2f(b) for b in x])
+        # `span` as the translator read it from the current source, evaluated row by row in Lean Float (bit-exact):
+        # validates the translator's reading against the running code
+        tl, tx = [], []
+        for x, rp in list(zip(exp, meta))[:150]:
+            for j, row in enumerate(rp['arr']):
+                tl.append(f"fx span - lb={fbits(float(rp['lb'][j]))},ub={fbits(float(rp['ub'][j]))} {enc_bits(row)}")
+                tx.append((x[j], rp))
+        for o, (xb, rp) in zip(drv.ask_many(tl), tx):
+            if not o.isdigit() or int(o) != xb:
+                C.issue('translated-span-mismatch', 'correspondence', rp, model=o[:60], real=xb)
+                break
+        C.extra['translated_span_rows'] = len(tl)
         # hypercomplex spaces stay in the unit box for any declared bounds
         for k in range(30 if ctx['tier'] == 'quick' else 300):
             v, d = C.rng.randint(1, 4), C.rng.randint(1, 4)
